@@ -8,5 +8,7 @@ import "github.com/buzzfeed/sso/internal/pkg/verifpools"
 // stand-ins and the registry package to the services' sources).
 func init() {
 	resetPools = verifpools.ResetAll
+	setRandSeed = verifpools.SetSeed
+	installGoHooks = verifpools.InstallGoHook
 	installPauseHooks = verifpools.InstallHook
 }
